@@ -38,8 +38,6 @@ Definition bundled_db : database := match load_lines bundled_lines with Some d =
 (* the database the specification reads from it *)
 Definition bundled_spec_db : database := match spec_load_lines bundled_lines with VOk d => d | _ => empty_db end.
 
-(* the bundled file as one text (every line terminated by a line feed), and the same without the lines of the
-   known class C06-list-remainder (the `ua_os` line) *)
+(* the bundled file as one text (every line terminated by a line feed) *)
 Definition unlines (ls : list bytes) : bytes := concat (map (fun l => l ++ [x0a]) ls).
 Definition bundled_text : bytes := unlines bundled_lines.
-Definition bundled_text_plain : bytes := unlines (filter (fun l => negb (lossy_line l)) bundled_lines).
